@@ -30,7 +30,7 @@ from loguru import logger
 
 from src.config import ConfigError, save_config, validate_config
 
-from .config_merge import perform_merge
+from .config_merge import as_json_text, perform_merge
 from .main import cli
 
 # =============================================================================
@@ -332,6 +332,8 @@ def init_config(preset: str, non_interactive: bool, force: bool, output: str) ->
 
     # Generate full config based on preset
     config_content = _generate_config_content(preset)
+    if output_path.suffix.lower() == ".json":
+        config_content = as_json_text(config_content)
 
     # Write config file
     _write_config_file(output_path, config_content, preset, output)
